@@ -328,7 +328,7 @@ pub fn run(ctx: &Ctx, replay: Option<&J>) -> i32 {
     finish(
         ctx,
         "exploration",
-        "every finite double of the grid N through to_string->to_number, JSON output->input, closure capture->emitted source->reload->call, and formatter->parser, compared by bit pattern; every string of length <= 5/7 over {0 1 5 9 . _ e E + -} that the documented literal grammar accepts, every 0x/0b literal with <= 4/6 digits and underscores, boundary long literals (2^53, 2^63, 2^64 neighbourhoods, subnormal and overflow thresholds, half-way cases), each compared with the nearest double of its exact rational value; distinct = distinct bit patterns / literals",
+        "every finite double of the grid N through to_string->to_number, JSON output->input, closure capture->emitted source->reload->call, and formatter->parser, compared by bit pattern; a thinned grid plus signed zeros / small integers / 170, 171 / +-1e21 / subnormals / infinities captured by closures whose 24 bodies put the number directly under postfix, power, unary, division, index and nested-function positions, called before and after emit -> reload; every string of length <= 5/7 over {0 1 5 9 . _ e E + -} that the documented literal grammar accepts, every 0x/0b literal with <= 4/6 digits and underscores, boundary long literals (2^53, 2^63, 2^64 neighbourhoods, subnormal and overflow thresholds, half-way cases), each compared with the nearest double of its exact rational value; distinct = distinct bit patterns / literals",
         true,
         None,
     )
